@@ -183,7 +183,7 @@ def coqc_file(path, timeout=900, extra_q=()):
         args += ["-Q", d, n]
     args.append(path)
     # long string literals are deeply nested terms: lift the native stack limit for coqc
-    args = ["bash", "-c", "ulimit -s unlimited 2>/dev/null || ulimit -s 1000000; exec \"$@\"", "coqc-wrapper"] + args
+    args = ["bash", "-c", "ulimit -s unlimited 2>/dev/null || ulimit -s 1000000; ulimit -v 12000000 2>/dev/null; exec \"$@\"", "coqc-wrapper"] + args
     try:
         rc, out = run(args, timeout, cwd=os.path.dirname(path))
     except subprocess.TimeoutExpired:
@@ -191,14 +191,15 @@ def coqc_file(path, timeout=900, extra_q=()):
     return rc, out
 
 
-def audit(prop_id, theorems, allowed_axioms=()):
+def audit(prop_id, theorems, allowed_axioms=(), modules=None):
     """Check every property theorem exists and report its assumptions.
     theorems: list of names defined in Aplang.Props.<prop_id>.
     returns (discharged names, problems, assumptions per theorem)"""
     os.makedirs(os.path.join(WORK, prop_id), exist_ok=True)
     p = os.path.join(WORK, prop_id, "Audit_%s.v" % prop_id)
     with open(p, "w") as f:
-        f.write("From Aplang Require Import Props.%s.\n" % prop_id)
+        for m in (modules or [prop_id]):
+            f.write("From Aplang Require Import Props.%s.\n" % m)
         for t in theorems:
             f.write('Goal unit. idtac "BEGIN %s". exact tt. Qed.\n' % t)
             f.write("Print Assumptions %s.\n" % t)
@@ -229,6 +230,21 @@ def audit(prop_id, theorems, allowed_axioms=()):
     for t in missing:
         problems.append("theorem %s missing from audit output" % t)
     return discharged, problems, assumptions
+
+
+def coqchk(prop_id, timeout=2400):
+    """independent re-check of the compiled property file and everything it depends on (thorough tier)"""
+    t = time.time()
+    try:
+        rc, out = run(["coqchk", "-o", "-silent", "-Q", os.path.join(COQ, "theories"), "Aplang", "Aplang.Props." + prop_id], timeout, cwd=COQ)
+    except subprocess.TimeoutExpired:
+        return {"ok": False, "note": "coqchk timed out"}
+    tail = out[-3000:]
+    axioms = []
+    if "* Axioms:" in tail:
+        sect = tail.split("* Axioms:")[1].split("* Constants/Inductives")[0]
+        axioms = [l.strip() for l in sect.strip().split("\n") if l.strip()]
+    return {"ok": rc == 0, "seconds": round(time.time() - t), "axioms": axioms[:60]}
 
 
 # ------------------------------------------------------------------ harness runs
@@ -281,7 +297,8 @@ def run_harness(mode, cases, budget=20000, depth=120, tag="h"):
             pos += len(lines)
             if pos < hi:
                 # the process died on case `pos` (abort / stack overflow / timeout)
-                results[pos] = "ABORT rc=%d" % rc
+                err = open(of + ".err", errors="replace").read() if os.path.exists(of + ".err") else ""
+                results[pos] = "ABORT rc=%d%s" % (rc, " STACKOVERFLOW" if "has overflowed its stack" in err else "")
                 pos += 1
 
     with ThreadPoolExecutor(max_workers=nshards) as ex:
